@@ -18,6 +18,14 @@ CLAIMED = {
          "DESIGN.md section 4, C14"),
 }
 
+CLAIMED["C15"] = ("contract-based deductive verification (WP -> SMT) of TrimCollinear64 and the collinearity predicate; bounded exhaustive stand-in for the global closed-path clauses",
+  "Proof for all inputs (coordinates up to 2^29): every index expression is in range for every length including 0..2, all four loops terminate, every result vertex is an input vertex, "
+  "an open path keeps both end points, a closed result has 0 or >= 3 vertices whenever the collinearity predicate is exact on the path's points; the predicate itself is proved equal to "
+  "'integer cross product is zero' outside the recorded F2 region. The global closed-path clauses (sub-sequence, area unchanged, no collinear triple left, idempotence) are covered by a "
+  "bounded exhaustive stand-in only (stated in evidence as bounded, not proved).",
+  "Trusted: govc, SMT solvers, go/types. Known finding F2 (triSign(1)==0) carved out and replayed. Beyond the bound the closed-path clauses are undecided.",
+  "DESIGN.md section 4, C15")
+
 NOT_APPLICABLE = {
 }
 
